@@ -47,7 +47,15 @@ def decode_z80(data):
         s['version'] = 1
         s['pc'] = pc
         body = d[30:]
-        ram = z80_rle(body, True) if b12 & 32 else body
+        if b12 & 32:
+            # 'the block is terminated by an end marker, 00 ED ED 00'
+            if body[-4:] != [0, 0xED, 0xED, 0]:
+                raise ValueError('version 1 compressed RAM does not end with the end marker 00 ED ED 00')
+            ram = z80_rle(body[:-4], False)
+        else:
+            ram = body
+        if len(ram) != 49152:
+            raise ValueError(f'version 1 RAM is {len(ram)} bytes (should be 49152)')
         banks[5], banks[2], banks[0] = ram[:16384], ram[16384:32768], ram[32768:49152]
         s['machine'] = '48K'
     else:
@@ -79,6 +87,8 @@ def decode_z80(data):
             else:
                 blk = z80_rle(d[i + 3:i + 3 + ln], False)
                 i += 3 + ln
+            if len(blk) != 16384:
+                raise ValueError(f'page {page} holds {len(blk)} bytes (should be 16384)')
             if is128:
                 banks[page - 3] = blk
             else:
